@@ -49,7 +49,9 @@ Canon(j) ==
                            [key |-> e.key, a0 |-> e.a0, a1 |-> e.a1, pair |-> e.pair, lp |-> e.lp,
                             d0 |-> e.d0, d1 |-> e.d1, commission |-> e.commission,
                             wl |-> Range(e.wl), m0 |-> e.m0, m1 |-> e.m1]]],
-      router |-> j.router ]
+      router |-> j.router,
+      nextc |-> j.nextc,
+      light |-> j.light ]
 
 Denoms(w) == DOMAIN w.bank
 Tokens(w) == DOMAIN w.tok
